@@ -139,4 +139,7 @@ class BaseSchema(ABC):
         """
 
     def __setstate__(self, state):
-        self.__dict__ = state
+        # copy.copy passes the very ``__dict__`` of the original object as
+        # state: copy it so that a shallow copy doesn't share its attributes
+        # with the original schema.
+        self.__dict__ = dict(state)
